@@ -584,14 +584,85 @@ Proof.
   rewrite IH; [reflexivity|]. intros y Hy. apply H. right. exact Hy.
 Qed.
 
+(* ---- the two id generators after the first loop: the largest xmi:id / sofaNum seen ---- *)
+Lemma fold_max_char l : forall a,
+  a <= fold_left Z.max l a /\ (forall x, In x l -> x <= fold_left Z.max l a) /\ (fold_left Z.max l a = a \/ In (fold_left Z.max l a) l).
+Proof.
+  induction l as [|y r IH]; intros a; cbn [fold_left In].
+  - split; [lia|]. split; [intros x []|left; reflexivity].
+  - destruct (IH (Z.max a y)) as (A & B & C). split; [lia|]. split.
+    + intros x [->|Hx]; [lia|apply B; exact Hx].
+    + destruct C as [C|C]; [|right; right; exact C]. rewrite C. destruct (Z.max_spec a y) as [[_ E]|[_ E]]; rewrite E; [right; left; reflexivity|left; reflexivity].
+Qed.
+Lemma zmax_list_char l M : 0 <= M -> (forall x, In x l -> x <= M) -> (M = 0 \/ In M l) -> zmax_list l = M.
+Proof.
+  intros H0 Hub Hin. unfold zmax_list. destruct (fold_max_char l 0) as (A & B & C).
+  assert (fold_left Z.max l 0 <= M) by (destruct C as [->|C]; [exact H0|apply Hub; exact C]).
+  assert (M <= fold_left Z.max l 0) by (destruct Hin as [->|Hin]; [exact A|apply B; exact Hin]). lia.
+Qed.
+Lemma pass1_max pf s : forall d st st', pass1 pf s false st d = Ok st' ->
+  forall ps os, mapM parse_sofa (filter is_sofa d) = Ok ps -> mapM (parse_fs pf s) (filter is_other d) = Ok os ->
+  (p_maxid st <= p_maxid st' /\ (forall so, In so ps -> ps_id so <= p_maxid st') /\ (forall o, In o os -> lo_id o <= p_maxid st') /\
+   (p_maxid st' = p_maxid st \/ In (p_maxid st') (map ps_id ps) \/ In (p_maxid st') (map lo_id os))) /\
+  (p_maxnum st <= p_maxnum st' /\ (forall so, In so ps -> ps_num so <= p_maxnum st') /\
+   (p_maxnum st' = p_maxnum st \/ In (p_maxnum st') (map ps_num ps))).
+Proof.
+  unfold pass1. induction d as [|e r IH]; intros st st' H ps os Hps Hos; cbn [pass1_with] in H.
+  - inversion H; subst. cbn in Hps, Hos. inversion Hps; inversion Hos; subst.
+    split; (split; [lia|]); (split; [intros ? []|]); [split; [intros ? []|]|]; left; reflexivity.
+  - apply bind_ok in H as (st1 & H1 & H). unfold step1_with in H1. cbn [filter] in Hps, Hos.
+    assert (Ho : is_other e = negb (is_sofa e || is_view e)) by reflexivity. rewrite Ho in Hos. clear Ho.
+    destruct (is_sofa e) eqn:Es.
+    + assert (Ev : is_view e = false).
+      { destruct (is_view e) eqn:Ev; [|reflexivity]. destruct (view_not_others e Ev) as (Hx & _). congruence. }
+      rewrite Ev in Hos. cbn [orb negb] in Hos. apply bind_ok in H1 as (so & Hso & H1). inversion H1; subst st1. clear H1.
+      apply mapM_cons_ok in Hps as (so' & ps' & Hso' & Hps' & ->). rewrite Hso in Hso'. inversion Hso'; subst so'.
+      destruct (IH _ _ H ps' os Hps' Hos) as ((A1 & A2 & A3 & A4) & (B1 & B2 & B3)). cbn [p_maxid p_maxnum] in *.
+      split.
+      * split; [lia|]. split; [intros x [<-|Hx]; [lia|apply A2; exact Hx]|]. split; [exact A3|].
+        cbn [map In]. destruct A4 as [A4|[A4|A4]]; [|tauto|tauto].
+        destruct (Z.max_spec (ps_id so) (p_maxid st)) as [[_ E]|[_ E]]; rewrite E in A4; [left; exact A4|right; left; left; symmetry; exact A4].
+      * split; [lia|]. split; [intros x [<-|Hx]; [lia|apply B2; exact Hx]|].
+        cbn [map In]. destruct B3 as [B3|B3]; [|tauto].
+        destruct (Z.max_spec (ps_num so) (p_maxnum st)) as [[_ E]|[_ E]]; rewrite E in B3; [left; exact B3|right; left; symmetry; exact B3].
+    + destruct (is_view e) eqn:Ev; cbn [orb negb] in Hos.
+      * apply bind_ok in H1 as (pv & Hpv & H1). inversion H1; subst st1. clear H1.
+        exact (IH _ _ H ps os Hps Hos).
+      * fold (parse_fs pf s e) in H1. apply mapM_cons_ok in Hos as (o & os' & Ho & Hos' & ->). rewrite Ho in H1.
+        inversion H1; subst st1. clear H1.
+        destruct (IH _ _ H ps os' Hps Hos') as ((A1 & A2 & A3 & A4) & B). cbn [p_maxid p_maxnum] in *.
+        split; [|exact B].
+        split; [lia|]. split; [exact A2|]. split; [intros x [<-|Hx]; [lia|apply A3; exact Hx]|].
+        cbn [map In]. destruct A4 as [A4|[A4|A4]]; [|tauto|tauto].
+        destruct (Z.max_spec (lo_id o) (p_maxid st)) as [[_ E]|[_ E]]; rewrite E in A4; [left; exact A4|right; right; left; symmetry; exact A4].
+Qed.
+(* the views after the loop when no sofa is called _InitialView: the pre-created view is still there *)
+Lemma inv_final0 pviews objs1 sofas views objs iv : Inv pviews objs1 sofas views objs -> NoDup (names sofas) -> ~ In INITIAL (names sofas) ->
+  Permutation (aset INITIAL iv views) ((INITIAL, iv) :: map (view_of pviews) sofas).
+Proof.
+  intros [Ind Ilook _ Ikeys _] ND Hini. apply dict_perm.
+  - apply aset_keys_nodup. exact Ind.
+  - cbn [map fst]. constructor; rewrite map_map; [exact Hini|exact ND].
+  - intros n. rewrite alookup_aset. cbn [alookup]. destruct (String.eqb n INITIAL) eqn:E; [reflexivity|].
+    destruct (in_dec string_dec n (names sofas)) as [Hin|Hn].
+    + unfold names in Hin. apply in_map_iff in Hin as (kso & <- & Hin). rewrite (Ilook kso Hin), (alookup_view_of pviews sofas kso ND Hin). reflexivity.
+    + assert (H1 : alookup n views = None).
+      { apply alookup_none_notin. intros Hin. apply Ikeys in Hin as [->|Hin]; [rewrite String.eqb_refl in E; discriminate|contradiction]. }
+      assert (H2 : alookup n (map (view_of pviews) sofas) = None).
+      { apply alookup_none_notin. rewrite map_map. exact Hn. }
+      congruence.
+Qed.
+
 Section Global.
 Variable pf : string -> option flt.
 
-Theorem load_xmi_is_denotation s d c :
-  reader_okb pf s d = true -> load_xmi pf s false d = Ok c -> canon_loaded s c = denote_xmi pf s d.
+(* the reader computes the denotation, for documents with and without an _InitialView sofa: in the second case the view that
+   every Cas has from its construction stays, with the next free xmi:id and sofaNum (with_initial) *)
+Theorem load_xmi_is_denotation_gen s d c :
+  reader_okb0 pf s d = true -> load_xmi pf s false d = Ok c -> canon_loaded s c = res_map with_initial (denote_xmi pf s d).
 Proof.
   intros Hok Hload.
-  unfold reader_okb in Hok. rewrite !andb_true_iff in Hok.
+  unfold reader_okb0 in Hok. rewrite !andb_true_iff in Hok.
   destruct Hok as [[[[[[[Hdoc Hsch] Hsf] Hnames] Helems] Hsofas] Hmem] Hids].
   (* ---- the document ---- *)
   apply doc_ok_unfold in Hdoc as (nulls & dviews & cc & Hn & Hv & Hd & Hc).
@@ -672,7 +743,7 @@ Proof.
     rewrite Epsofas in Asf. clear - Asf. remember (map (fun so => (ps_id so, so)) ps) as l eqn:El. revert ps El.
     induction Asf as [|a b l1 l2 Hab H IH]; intros ps El; destruct ps; cbn [map names] in *; try discriminate; [reflexivity|].
     inversion El; subst. destruct (resolve_arr_spec _ _ _ Hab) as (_ & _ & _ & E & _). rewrite E. cbn [snd]. f_equal. apply IH. reflexivity. }
-  apply andb_true_iff in Hsofas as [Hsn Hsi]. apply nodup_sb_NoDup in Hsn. apply memb_In in Hsi.
+  pose proof Hsofas as Hsn. unfold sofas_nodupb in Hsn. apply nodup_sb_NoDup in Hsn.
   assert (Hid_s : forall kso, In kso sofas -> ps_id (snd kso) = fst kso).
   { intros kso Hin. destruct (Forall2_in_r _ _ _ kso Asf Hin) as (kso0 & Hin0 & Hr). destruct (resolve_arr_spec _ _ _ Hr) as (E1 & E2 & _).
     rewrite E1, E2. rewrite Epsofas in Hin0. apply in_map_iff in Hin0 as (so & <- & _). reflexivity. }
@@ -729,14 +800,10 @@ Proof.
   destruct (view_loop_spec s dviews objs1 sofas [] [(INITIAL, initial_view)] objs1 (inv_init dviews objs1) NDks NDns Hid_s Hready)
     as (views' & objs' & Hvl' & HI).
   rewrite Epviews, F4 in Hvl. rewrite Hvl' in Hvl. inversion Hvl; subst views' objs'. clear Hvl. cbn [app] in HI.
-  destruct HI as [Ind Ilook Iinit Ikeys Iobjs].
-  assert (Hini : In INITIAL (names sofas)) by (rewrite Enames_s; exact Hsi).
-  assert (Hex : existsb (fun kso => String.eqb (ps_name (snd kso)) INITIAL) psofas = true).
-  { apply existsb_exists. rewrite Enames_s in Hini. rewrite <- (mapM_map_gen parse_sofa ps_name sofa_name _ _ (fun x y H => proj1 (parse_sofa_name x y H)) S1) in Hini.
-    apply in_map_iff in Hini as (so & Hn0 & Hin0). exists (ps_id so, so). split; [rewrite Epsofas; apply in_map_iff; exists so; auto|].
-    cbn [snd]. rewrite Hn0. apply String.eqb_refl. }
-  rewrite Hex in Hload. inversion Hload; subst c. clear Hload.
-  pose proof (inv_final dviews objs1 sofas views objs2 (mkInv _ _ _ _ _ Ind Ilook Iinit Ikeys Iobjs) (eq_ind _ (fun l => NoDup l) Hsn _ (eq_sym Enames_s)) Hini) as Pviews.
+  pose proof HI as HI0. destruct HI as [Ind Ilook Iinit Ikeys Iobjs].
+  assert (NDn : NoDup (names sofas)) by (rewrite Enames_s; exact Hsn).
+  assert (Enp : names sofas = map ps_name ps).
+  { rewrite Enames_s. symmetry. exact (mapM_map_gen parse_sofa ps_name sofa_name _ _ (fun x y H => proj1 (parse_sofa_name x y H)) S1). }
   (* ---- sofas of the reader against sofas of the denotation ---- *)
   assert (Asd : Forall2 (fun kso c0 => cs_id c0 = fst kso /\
                   (ps_id (snd kso) = cs_id c0 /\ ps_num (snd kso) = cs_num c0 /\ ps_name (snd kso) = cs_name c0 /\
@@ -788,8 +855,11 @@ Proof.
   assert (Hps : forall i so0, zlookup i psofas = Some so0 -> exists so, zlookup i sofas = Some so).
   { intros i so0 Hz. destruct (zlookup_Forall2 (fun _ _ => True) psofas sofas i so0) as (so & Hso & _); [|exact Hz|eauto].
     eapply Forall2_impl; [|exact Asf]. intros a b Hr. destruct (resolve_arr_spec _ _ _ Hr) as (E & _). auto. }
-  assert (Hview : forall i so, zlookup i sofas = Some so -> exists w, alookup (ps_name so) views = Some w /\ ls_id (lv_sofa w) = i).
-  { intros i so Hz. apply zlookup_some_in in Hz. pose proof (Ilook _ Hz) as Hl. cbn [snd] in Hl. rewrite Hl. eexists. split; [reflexivity|]. cbn. apply (Hid_s _ Hz). }
+  pose (looks := fun fviews : list (string * lview) => forall kso, In kso sofas ->
+                 alookup (ps_name (snd kso)) fviews = Some (mkLv (lsofa_of (snd kso)) (members_for dviews (snd kso)))).
+  assert (GHview : forall fviews, looks fviews ->
+            forall i so, zlookup i sofas = Some so -> exists w, alookup (ps_name so) fviews = Some w /\ ls_id (lv_sofa w) = i).
+  { intros fviews FL i so Hz. apply zlookup_some_in in Hz. pose proof (FL _ Hz) as Hl. cbn [snd] in Hl. rewrite Hl. eexists. split; [reflexivity|]. cbn. apply (Hid_s _ Hz). }
   assert (Hconv : forall e a i so, xattr e "sofa" = Some a -> s2z a = Some i -> zlookup i sofas = Some so ->
                                    forall z, conv_of dsofas e z = conv_z (ps_text so) z).
   { intros e a i so Ha Hz Hl z. unfold conv_of. rewrite Ha, Hz.
@@ -809,11 +879,10 @@ Proof.
     destruct (Forall2_in_r _ _ _ o Aos Hino) as (e & Hein & Hpe).
     destruct (Helx e Hein) as (ti & o1 & o' & o'' & _ & _ & _ & P1 & _ & _ & Z1 & _). assert (o1 = o) by congruence. subst o1. eauto. }
   (* ---- the canonical content ---- *)
-  rewrite Hd0. unfold canon_loaded. cbn [lc_views lc_objs].
   (* feature structures *)
-  assert (Gfs : mapM (fun ko => canon_obj s views objs2 (snd ko))
+  assert (Gfs : forall fviews, looks fviews -> mapM (fun ko => canon_obj s fviews objs2 (snd ko))
                      (filter (fun ko => negb (String.eqb (lo_type (snd ko)) T_NULL)) objs2) = Ok dfss).
-  { rewrite <- D3. symmetry. rewrite <- (filter_filter_impl is_fs is_other d is_fs_other).
+  { intros fviews FL. pose proof (GHview fviews FL) as Hview. rewrite <- D3. symmetry. rewrite <- (filter_filter_impl is_fs is_other d is_fs_other).
     apply mapM_Forall2_fg.
     rewrite <- Iobjs in Apipe. pose proof (Forall2_with_in _ _ _ Apipe) as Ap.
     pose proof (Forall2_filter2 _ is_fs (fun ko : xid * lobj => negb (String.eqb (lo_type (snd ko)) T_NULL)) _ _ Ap) as Apf.
@@ -836,8 +905,8 @@ Proof.
     pose proof (ti_okb_ok _ _ Htb) as Hti. pose proof (elem_okb_ok s e ti Hf Heb) as Hek.
     destruct (Hsfp ti (sch_find_in _ _ _ Hf)) as [Hsf1 Hsf2].
     destruct (is_array_name (ti_name ti)) eqn:Earr.
-    - apply (elem_final_arr pf s psofas sofas fss views objs2 dsofas Hderef e ti o o' o'' i cf Hf Htb Heb Htop Htoe Earr P1 P2 P3 Hde).
-    - apply (elem_final pf s psofas sofas fss views objs2 dsofas Hderef Hps Hview Hconv Hnz e ti o o' o'' i cf Hf Hti Hek Hsf1 Hsf2 Htoe Earr P1 P2 P3 Hde). }
+    - apply (elem_final_arr pf s psofas sofas fss fviews objs2 dsofas Hderef e ti o o' o'' i cf Hf Htb Heb Htop Htoe Earr P1 P2 P3 Hde).
+    - apply (elem_final pf s psofas sofas fss fviews objs2 dsofas Hderef Hps Hview Hconv Hnz e ti o o' o'' i cf Hf Hti Hek Hsf1 Hsf2 Htoe Earr P1 P2 P3 Hde). }
   (* views *)
   assert (Gso0 : mapM (fun kso => canon_view objs2 (snd (view_of dviews kso))) sofas = Ok (map (with_members dviews) dsofas)).
   { apply Forall2_mapM_gen. pose proof (Forall2_with_in _ _ _ Asd) as Asd'. eapply Forall2_impl; [|exact Asd'].
@@ -854,9 +923,128 @@ Proof.
     rewrite Harr. cbn [bind]. unfold with_members. rewrite (members_of_zlookup dviews _ NDv).
     unfold members_for. rewrite A1, A2, A3, A4, A5, A6. reflexivity. }
   rewrite <- (mapM_map (fun nv => canon_view objs2 (snd nv)) (view_of dviews)) in Gso0.
-  destruct (mapM_perm _ _ _ (Permutation_sym Pviews) _ Gso0) as (cs & Hcs & Pcs).
-  rewrite Hcs. cbn [bind]. rewrite Gfs. cbn [bind]. f_equal. f_equal.
-  symmetry. apply sort_by_perm; [exact Pcs|]. rewrite map_id_with_members. exact NDs'.
+  (* is there a sofa called _InitialView? *)
+  assert (Enm : names sofas = map cs_name dsofas).
+  { clear - Asd. induction Asd as [|kso c0 l1 l2 (_ & _ & _ & A3 & _) _ IH]; cbn [names map]; [reflexivity|]. rewrite A3. f_equal. exact IH. }
+  assert (Hexd : existsb (fun c0 => String.eqb (cs_name c0) INITIAL) (sort_by cs_id (map (with_members dviews) dsofas)) = true <-> In INITIAL (names sofas)).
+  { rewrite Enm, existsb_exists. split.
+    - intros (c0 & Hin & He). apply String.eqb_eq in He. rewrite <- He.
+      apply (Permutation_in _ (sort_by_is_perm cs_id _)) in Hin. apply in_map_iff in Hin as (c1 & <- & Hin). apply in_map_iff. exists c1. auto.
+    - intros Hin. apply in_map_iff in Hin as (c1 & Hn1 & Hin). exists (with_members dviews c1). split.
+      + apply (Permutation_in _ (Permutation_sym (sort_by_is_perm cs_id _))). apply in_map. exact Hin.
+      + cbn [with_members cs_name]. rewrite Hn1. apply String.eqb_refl. }
+  rewrite Hd0. cbn [res_map]. unfold with_initial. cbn [cc_sofas cc_fs].
+  destruct (in_dec string_dec INITIAL (names sofas)) as [Hini|Hnini].
+  - (* the document has the sofa _InitialView *)
+    assert (Hex : existsb (fun kso => String.eqb (ps_name (snd kso)) INITIAL) psofas = true).
+    { apply existsb_exists. rewrite Enp in Hini.
+      apply in_map_iff in Hini as (so & Hn0 & Hin0). exists (ps_id so, so). split; [rewrite Epsofas; apply in_map_iff; exists so; auto|].
+      cbn [snd]. rewrite Hn0. apply String.eqb_refl. }
+    rewrite Hex in Hload. inversion Hload; subst c. clear Hload.
+    pose proof (inv_final dviews objs1 sofas views objs2 HI0 NDn Hini) as Pviews.
+    unfold canon_loaded. cbn [lc_views lc_objs]. rewrite (proj2 Hexd Hini).
+    destruct (mapM_perm _ _ _ (Permutation_sym Pviews) _ Gso0) as (cs & Hcs & Pcs).
+    rewrite Hcs. cbn [bind]. rewrite (Gfs views Ilook). cbn [bind]. f_equal. f_equal.
+    symmetry. apply sort_by_perm; [exact Pcs|]. rewrite map_id_with_members. exact NDs'.
+  - (* it has not: the pre-created view gets the next xmi:id and sofaNum *)
+    assert (Hex : existsb (fun kso => String.eqb (ps_name (snd kso)) INITIAL) psofas = false).
+    { apply not_true_is_false. intros Ht. apply Hnini. apply existsb_exists in Ht as ([k so] & Hin & He). rewrite Epsofas in Hin.
+      apply in_map_iff in Hin as (so' & Heq & Hin). inversion Heq; subst k so'. apply String.eqb_eq in He. cbn [snd] in He.
+      rewrite Enp, <- He. apply in_map. exact Hin. }
+    set (iv := mkLv (mkLs (p_maxid st + 1) (p_maxnum st + 1) INITIAL None None None None) []).
+    assert (Ec : c = mkLc (aset INITIAL iv views) objs2 (p_maxid st + 2) (p_maxnum st + 2) false).
+    { rewrite Hex, (Iinit Hnini) in Hload. inversion Hload. reflexivity. }
+    subst c. clear Hload.
+    assert (FL : looks (aset INITIAL iv views)).
+    { intros kso Hin. rewrite alookup_aset. destruct (String.eqb (ps_name (snd kso)) INITIAL) eqn:E; [|apply Ilook; exact Hin].
+      apply String.eqb_eq in E. exfalso. apply Hnini. rewrite <- E. unfold names. apply (in_map (fun kso => ps_name (snd kso))). exact Hin. }
+    pose proof (inv_final0 dviews objs1 sofas views objs2 iv HI0 NDn Hnini) as Pviews.
+    (* the two generators *)
+    destruct (pass1_max pf s d p1_init st Hp1 ps os S1 S3) as ((M1 & M2 & M3 & M4) & (N1 & N2 & N3)). cbn [p1_init p_maxid p_maxnum] in M1, M4, N1, N3.
+    assert (Enums : map ps_num ps = map cs_num dsofas).
+    { clear - Asof. induction Asof as [|so c ps' ds' (e & _ & H1 & H2) _ IH]; cbn [map]; [reflexivity|].
+      destruct (parse_sofa_dec e so c H1 H2) as (_ & E & _). rewrite E, IH. reflexivity. }
+    assert (Hos_id : forall o, In o os -> lo_id o = 0 \/ In (lo_id o) (map fst dfss)).
+    { intros o Hino. destruct (Forall2_in_r _ _ _ o Aos Hino) as (e & Hein & Hpe).
+      destruct (Helx e Hein) as (ti & o1 & o' & o'' & Hf & _ & _ & P1 & _ & _ & _ & _ & X0 & _). assert (o1 = o) by congruence. subst o1.
+      destruct (Hclass e ti (lo_id o) Hein Hf X0) as (E1 & E2 & _). destruct (lo_id o =? 0) eqn:E0; [left; apply Z.eqb_eq; exact E0|right].
+      rewrite E1 in E2. cbn [negb] in E2.
+      assert (Hin0 : In e (filter is_fs d)) by (apply filter_In; split; [apply filter_In in Hein; tauto|exact E2]).
+      destruct (mapM_In_fwd _ _ _ e D3 Hin0) as ([i' cf] & Hy & Hde). pose proof (dec_fs_id _ _ _ _ _ _ Hde) as Hx'. rewrite X0 in Hx'. inversion Hx'; subst i'.
+      apply in_map_iff. exists (lo_id o, cf). auto. }
+    assert (Hfs_id : forall i, In i (map fst dfss) -> exists o, In o os /\ lo_id o = i).
+    { intros i Hi. apply in_map_iff in Hi as ([i' cf] & Hi' & Hin). cbn [fst] in Hi'. subst i'.
+      destruct (mapM_In _ _ _ _ D3 Hin) as (e & Hein & Hde). pose proof (dec_fs_id _ _ _ _ _ _ Hde) as Hxe.
+      apply filter_In in Hein as [Hed Hefs]. assert (Heo : In e (filter is_other d)) by (apply filter_In; split; [exact Hed|apply is_fs_other; exact Hefs]).
+      destruct (Forall2_in_l _ _ _ e Aid Heo) as (o & Hino & Hx). exists o. split; [exact Hino|congruence]. }
+    assert (Hsid : forall i, In i (map cs_id (sort_by cs_id (map (with_members dviews) dsofas))) <-> In i (map ps_id ps)).
+    { intros i. rewrite Eids, <- (map_id_with_members dviews dsofas). split; apply Permutation_in; [|apply Permutation_sym]; apply Permutation_map, sort_by_is_perm. }
+    assert (Hfid : forall i, In i (map fst (sort_by fst dfss)) <-> In i (map fst dfss)).
+    { intros i. split; apply Permutation_in; [|apply Permutation_sym]; apply Permutation_map, sort_by_is_perm. }
+    assert (Emax : zmax_list (map cs_id (sort_by cs_id (map (with_members dviews) dsofas)) ++ map fst (sort_by fst dfss)) = p_maxid st).
+    { apply zmax_list_char; [exact M1| |].
+      - intros x Hx. apply in_app_or in Hx as [Hx|Hx].
+        + apply Hsid in Hx. apply in_map_iff in Hx as (so & <- & Hso). apply M2. exact Hso.
+        + apply Hfid in Hx. destruct (Hfs_id x Hx) as (o & Hino & <-). apply M3. exact Hino.
+      - destruct M4 as [M4|[M4|M4]]; [left; exact M4| |].
+        + right. apply in_or_app. left. apply Hsid. exact M4.
+        + apply in_map_iff in M4 as (o & Ho & Hino). destruct (Hos_id o Hino) as [Hz|Hz]; [left; congruence|].
+          right. apply in_or_app. right. apply Hfid. rewrite <- Ho. exact Hz. }
+    assert (Enum : zmax_list (map cs_num (sort_by cs_id (map (with_members dviews) dsofas))) = p_maxnum st).
+    { assert (Hnid : forall i, In i (map cs_num (sort_by cs_id (map (with_members dviews) dsofas))) <-> In i (map ps_num ps)).
+      { intros i. rewrite Enums. replace (map cs_num dsofas) with (map cs_num (map (with_members dviews) dsofas)) by (rewrite map_map; reflexivity).
+        split; apply Permutation_in; [|apply Permutation_sym]; apply Permutation_map, sort_by_is_perm. }
+      apply zmax_list_char; [exact N1| |].
+      - intros x Hx. apply Hnid in Hx. apply in_map_iff in Hx as (so & <- & Hso). apply N2. exact Hso.
+      - destruct N3 as [N3|N3]; [left; exact N3|right; apply Hnid; exact N3]. }
+    assert (Hexd' : existsb (fun c0 => String.eqb (cs_name c0) INITIAL) (sort_by cs_id (map (with_members dviews) dsofas)) = false).
+    { apply not_true_is_false. intros Ht. apply Hnini. apply Hexd. exact Ht. }
+    rewrite Hexd'.
+    match goal with |- context [mkCsofa (zmax_list ?L1 + 1) (zmax_list ?L2 + 1)] =>
+      replace (zmax_list L1) with (p_maxid st) by (symmetry; exact Emax);
+      replace (zmax_list L2) with (p_maxnum st) by (symmetry; exact Enum) end.
+    unfold canon_loaded. cbn [lc_views lc_objs].
+    assert (Gso1 : mapM (fun nv => canon_view objs2 (snd nv)) ((INITIAL, iv) :: map (view_of dviews) sofas)
+                   = Ok (mkCsofa (p_maxid st + 1) (p_maxnum st + 1) INITIAL None None None None [] :: map (with_members dviews) dsofas)).
+    { cbn [mapM]. rewrite Gso0. reflexivity. }
+    destruct (mapM_perm _ _ _ (Permutation_sym Pviews) _ Gso1) as (cs & Hcs & Pcs).
+    rewrite Hcs. cbn [bind]. rewrite (Gfs _ FL). cbn [bind]. f_equal. f_equal.
+    symmetry. apply sort_by_perm.
+    + eapply Permutation_trans; [|exact Pcs]. constructor. apply sort_by_is_perm.
+    + cbn [map cs_id]. constructor.
+      * intros Hin. apply Hsid in Hin. apply in_map_iff in Hin as (so & Hso & Hin). specialize (M2 so Hin). lia.
+      * eapply Permutation_NoDup; [|exact NDs'].
+        rewrite <- (map_id_with_members dviews dsofas). apply Permutation_map, Permutation_sym, sort_by_is_perm.
+Qed.
+
+(* reader_okb = reader_okb0 + the document has the sofa _InitialView *)
+Lemma reader_okb_split s d : reader_okb pf s d = reader_okb0 pf s d && memb INITIAL (map sofa_name (filter is_sofa d)).
+Proof.
+  unfold reader_okb, reader_okb0, sofas_okb, sofas_nodupb.
+  destruct (doc_ok_xmi pf s d), (schema_okb s), (sofa_feat_okb s), (names_okb d), (forallb (elem_okb s) (filter is_other d)),
+    (nodup_sb (map sofa_name (filter is_sofa d))), (memb INITIAL (map sofa_name (filter is_sofa d))), (members_okb s d), (other_ids_okb d); reflexivity.
+Qed.
+Lemma with_initial_id cc : existsb (fun c => String.eqb (cs_name c) INITIAL) (cc_sofas cc) = true -> with_initial cc = cc.
+Proof. intros H. unfold with_initial. rewrite H. reflexivity. Qed.
+Lemma denote_has_initial s d cc : denote_xmi pf s d = Ok cc -> memb INITIAL (map sofa_name (filter is_sofa d)) = true ->
+  existsb (fun c => String.eqb (cs_name c) INITIAL) (cc_sofas cc) = true.
+Proof.
+  intros Hd Hm. apply denote_unfold in Hd as (dsofas & dviews & dfss & D1 & _ & _ & ->). cbn [cc_sofas].
+  apply memb_In in Hm. apply in_map_iff in Hm as (e & Hn & Hin). unfold doc_sofas in D1.
+  destruct (mapM_In_fwd _ _ _ e D1 Hin) as (c0 & Hc0 & Hde). apply existsb_exists. exists (with_members dviews c0). split.
+  - apply (Permutation_in _ (Permutation_sym (sort_by_is_perm cs_id _))). apply in_map. exact Hc0.
+  - cbn [with_members cs_name]. unfold dec_sofa in Hde. apply bind_ok in Hde as (i & _ & Hde). apply bind_ok in Hde as (num & _ & Hde).
+    unfold sofa_name in Hn. destruct (xattr e "sofaID") as [name|]; cbn [bind] in Hde; [|discriminate].
+    apply bind_ok in Hde as (txt & _ & Hde). apply bind_ok in Hde as (arr & _ & Hde). inversion Hde; subst c0. cbn [cs_name]. rewrite Hn. apply String.eqb_refl.
+Qed.
+Theorem load_xmi_is_denotation s d c :
+  reader_okb pf s d = true -> load_xmi pf s false d = Ok c -> canon_loaded s c = denote_xmi pf s d.
+Proof.
+  intros Hok Hload. rewrite reader_okb_split in Hok. apply andb_true_iff in Hok as [Hok Hini].
+  rewrite (load_xmi_is_denotation_gen s d c Hok Hload).
+  assert (Hd : doc_ok_xmi pf s d = true) by (unfold reader_okb0 in Hok; rewrite !andb_true_iff in Hok; tauto).
+  apply doc_ok_unfold in Hd as (nulls & dviews & cc & _ & _ & Hd & _). rewrite Hd. cbn [res_map].
+  rewrite (with_initial_id cc (denote_has_initial s d cc Hd Hini)). reflexivity.
 Qed.
 End Global.
 
